@@ -273,6 +273,8 @@ structure Cfg where
   now : Nat          -- Shard.CurrentTime of every shard and the receive time
   mapping : List (Str × Int)
   metric : Metric
+  /-- agent Config.LegacyApplyValues (--legacy-apply-values): Shard.ApplyValues calls MultiValue.ApplyValuesLegacy -/
+  legacy : Bool := false
 deriving DecidableEq, Repr
 
 /-- sharding.Shard -/
@@ -370,6 +372,17 @@ def mvApplyValues (pct : Bool) (vals : List (Rat × Rat)) (count total : Rat) (m
   let m := mvMerge mv (scale count total (tmpOf count vals))
   if pct && m.min != m.max then { m with td := true } else m
 
+/-- MultiValue.ApplyValuesLegacy: the same temporary aggregate (counter `count`, values scaled by count/total) merged
+    into the row; the TDigest is created up front whenever the metric has percentiles -/
+def mvApplyValuesLegacy (pct : Bool) (vals : List (Rat × Rat)) (count total : Rat) (mv : MV) : MV :=
+  if total ≤ 0 then mv else
+  let m := mvMerge mv (scale count total (tmpOf count vals))
+  if pct then { m with td := true } else m
+
+/-- `if s.config.LegacyApplyValues { mv.ApplyValuesLegacy(…) } else { mv.ApplyValues(…) }` -/
+def valuesFn (legacy pct : Bool) (vals : List (Rat × Rat)) (count total : Rat) (mv : MV) : MV :=
+  if legacy then mvApplyValuesLegacy pct vals count total mv else mvApplyValues pct vals count total mv
+
 def insertUniq (l : List Int) (x : Int) : List Int := if l.contains x then l else x :: l
 
 /-- MultiValue.ApplyUnique -/
@@ -450,7 +463,7 @@ def runEffect (cfg : Cfg) (s : Store × EvKey) : Effect → Store × EvKey
     let total := histTotal values hist
     let count := effCount c.toRat total
     if count ≤ 0 then s
-    else shardApply cfg s.1 s.2 shard drop (mvApplyValues cfg.metric.pct (valuePairs values hist) count total)
+    else shardApply cfg s.1 s.2 shard drop (valuesFn cfg.legacy cfg.metric.pct (valuePairs values hist) count total)
   | .unique shard drop hashes c =>
     let count := effCount c.toRat (hashes.length : Rat)
     if count ≤ 0 then s
